@@ -418,17 +418,20 @@ func (r *c14run) afterOp(before *mempool.VerifPoolDump, block []*types.Transacti
 			} else if r.validateErr(tx, validation.MempoolTx) != nil {
 				just = "invalid"
 			} else {
+				// "removed by nonce" exists only inside the current epoch: a failing current-epoch transaction says nothing
+				// about the sender's next-epoch transactions (their nonces restart at 1)
 				a, _ := types.Sender(tx)
+				cur := r.w.B.app.State.Epoch()
 				for _, o := range before.All {
 					oa, _ := types.Sender(o)
-					if oa == a && o.AccountNonce <= tx.AccountNonce && o.Hash() != tx.Hash() && r.validateErr(o, validation.MempoolTx) != nil {
+					if tx.Epoch == cur && o.Epoch == cur && oa == a && o.AccountNonce <= tx.AccountNonce && o.Hash() != tx.Hash() && r.validateErr(o, validation.MempoolTx) != nil {
 						just = "by-nonce"
 					}
 				}
 			}
 		}
 		if just == "" {
-			r.failf("C14:accepted-lost", "accepted transaction %d (sender %d nonce %d) is no longer retrievable although it was neither included nor made invalid", id, r.senderIdx(tx), tx.AccountNonce)
+			r.failf("C14:accepted-lost", "accepted transaction %d (sender %d nonce %d epoch %d; chain epoch %d) is no longer retrievable although it was neither included nor made invalid", id, r.senderIdx(tx), tx.AccountNonce, tx.Epoch, r.w.B.app.State.Epoch())
 		} else {
 			r.hit("removed:" + just)
 		}
@@ -680,6 +683,20 @@ func (r *c14run) exec(op c14op) error {
 		}
 		if len(badM) > 0 {
 			r.hit("reset:with-invalid")
+			cur := B.app.State.Epoch()
+			badSender := map[common.Address]bool{}
+			for _, tx := range before.All {
+				if tx.Epoch == cur && !r.restOk(tx, validation.MempoolTx) {
+					a, _ := types.Sender(tx)
+					badSender[a] = true
+				}
+			}
+			for _, tx := range before.All {
+				if a, _ := types.Sender(tx); tx.Epoch > cur && badSender[a] {
+					r.hit("reset:next-epoch-tx-beside-failing-tx")
+					break
+				}
+			}
 		}
 		r.afterOp(before, blk.Body.Transactions)
 	case "build":
